@@ -21,7 +21,7 @@ enum {
     D_REVERSE, D_SORT, D_CONCAT, D_SWAP, D_FIND, D_FOREACH, D_CLEAR,
     S_PUSH_FRONT = 20, S_PUSH_BACK, S_POP_FRONT, S_INSERT_AFTER, S_ERASE_AFTER,
     S_REVERSE, S_SORT, S_CONCAT, S_SWAP, S_FOREACH, S_CLEAR,
-    D_HUGE_SORT = 40, S_HUGE_SORT, D_CHURN, S_CHURN,
+    D_HUGE_SORT = 40, S_HUGE_SORT, D_CHURN, S_CHURN, D_GIANT_SORT, S_GIANT_SORT,
 };
 
 static const char *l_opname(int k)
@@ -38,7 +38,7 @@ static const char *l_opname(int k)
     case S_ERASE_AFTER: return "s_erase_after"; case S_REVERSE: return "s_reverse";
     case S_SORT: return "s_sort"; case S_CONCAT: return "s_concat"; case S_SWAP: return "s_swap";
     case S_FOREACH: return "s_foreach"; case S_CLEAR: return "s_clear";
-    case D_HUGE_SORT: return "d_huge_sort"; case S_HUGE_SORT: return "s_huge_sort";
+    case D_HUGE_SORT: return "d_huge_sort"; case S_HUGE_SORT: return "s_huge_sort"; case D_GIANT_SORT: return "d_giant_sort"; case S_GIANT_SORT: return "s_giant_sort";
     case D_CHURN: return "d_churn"; case S_CHURN: return "s_churn";
     }
     return "?";
@@ -283,10 +283,19 @@ static void nested_list_clear(void)
     PROBE("clear_callback_clears_other_lists");
 }
 
+/* what an optimised caller may assume about a library function is part of its interface (attributes on the prototype):
+ * the callback writes a file-scope static that nothing else refers to, and a small function without setjmp reads it
+ * right after the call returns */
+static int plain_count;
+static void clear_cb(void *obj, void *priv);
+static int d_clear_plain(struct cstl_dlist *D) { plain_count = 0; g_inlib = 1; cstl_dlist_clear(D, clear_cb); g_inlib = 0; return plain_count; }
+static int s_clear_plain(struct cstl_slist *S) { plain_count = 0; g_inlib = 1; cstl_slist_clear(S, clear_cb); g_inlib = 0; return plain_count; }
+
 static void clear_cb(void *obj, void *priv)
 {
     CB_ENTER();
     struct lelem *e = ELM(obj);
+    plain_count++;
     int id = -1;
     if (reentrant) nested_list_clear();
     (void)priv;
@@ -560,6 +569,71 @@ static void huge_sort(int is_d, uint64_t nsel, uint64_t seed)
     if (n > maxreach) maxreach = (unsigned)n;
 }
 
+/* the same with 2^23 to 2^26 compact elements (thorough tier only): the sizes at which an implementation with a fixed number
+ * of merge bins, a 24- or 25-bit field or a depth limit first behaves differently. Order, stability (equal keys keep their
+ * original order), permutation, links, tail and size are checked by one walk. */
+struct gselem { struct cstl_slist_node sn; int key, id; };
+struct gdelem { struct cstl_dlist_node dn; int key, id; };
+static int cmp_gs(const void *a, const void *b, void *p) { (void)p; return (((const struct gselem *)a)->key > ((const struct gselem *)b)->key) - (((const struct gselem *)a)->key < ((const struct gselem *)b)->key); }
+static int cmp_gd(const void *a, const void *b, void *p) { (void)p; return (((const struct gdelem *)a)->key > ((const struct gdelem *)b)->key) - (((const struct gdelem *)a)->key < ((const struct gdelem *)b)->key); }
+static void giant_sort(int is_d, uint64_t sel, uint64_t seed)
+{
+    static const size_t sizes[] = { ((size_t)1 << 24) + 3, ((size_t)1 << 25) + 1, ((size_t)1 << 23) + 1, ((size_t)1 << 24) + ((size_t)1 << 23) + 7, (size_t)1 << 24, ((size_t)1 << 26) + 5 };
+    size_t n = sizes[sel % 6], i, cnt = 0;
+    unsigned pat = (unsigned)(sel / 6 % 4);          /* keys: random over few values, random over many, descending, ascending */
+    size_t esz = is_d ? sizeof(struct gdelem) : sizeof(struct gselem);
+    char *pool = malloc(n * esz);
+    struct mlist dummy; uint64_t x = seed; int prevk = INT_MIN, previd = -1;
+    static struct cstl_dlist gd; static struct cstl_slist gs;
+    if (!pool) sim_harness_bug("lists: no memory for a giant list");
+    sim_watchdog(1500);
+    dummy.n = 6; dummy.since_clear = -1; dummy.kind = 0;
+    g_cur_ctx = "giant-list"; g_cur_prop = is_d ? "C12" : "C13";
+    if (is_d) cstl_dlist_init(&gd, offsetof(struct gdelem, dn)); else cstl_slist_init(&gs, offsetof(struct gselem, sn));
+    g_inlib = 1;
+    for (i = 0; i < n; i++) {
+        int key = pat == 0 ? (int)(splitmix64(&x) % 1000) : pat == 1 ? (int)(splitmix64(&x) >> 34) : pat == 2 ? (int)((n - i) / 3) : (int)(i / 3);
+        if (is_d) { struct gdelem *e = (struct gdelem *)(pool + i * esz); e->key = key; e->id = (int)i; cstl_dlist_push_back(&gd, e); }
+        else { struct gselem *e = (struct gselem *)(pool + i * esz); e->key = key; e->id = (int)i; cstl_slist_push_back(&gs, e); }
+    }
+    g_inlib = 0;
+    if (is_d) TRY(cstl_dlist_sort(&gd, cmp_gd, NULL)); else TRY(cstl_slist_sort(&gs, cmp_gs, NULL));
+    if (g_aborted) VIOL(&dummy, is_d, g_aborted == 2 ? "assert" : "abort", "sort of %zu elements aborted", n);
+    if ((is_d ? cstl_dlist_size(&gd) : cstl_slist_size(&gs)) != n)
+        VIOL(&dummy, is_d, "size", "after sorting %zu elements the list reports size %zu", n, is_d ? cstl_dlist_size(&gd) : cstl_slist_size(&gs));
+    if (is_d) {
+        struct cstl_dlist_node *nd2 = gd.h.n, *pv = &gd.h;
+        while (nd2 != &gd.h && cnt <= n) {
+            struct gdelem *e = (struct gdelem *)((char *)nd2 - offsetof(struct gdelem, dn));
+            if ((char *)e < pool || (char *)e >= pool + n * esz || e->id < 0) VIOL(&dummy, 1, "sort_perm", "sorted list of %zu holds a foreign or repeated element at %zu", n, cnt);
+            if (nd2->p != pv) VIOL(&dummy, 1, "back_links", "sorted list of %zu: back link broken at %zu", n, cnt);
+            if (e->key < prevk) VIOL(&dummy, 1, "sort_order", "sorted list of %zu elements is not ordered at position %zu", n, cnt);
+            if (e->key == prevk && e->id < previd) VIOL(&dummy, 1, "sort_stable", "sorted list of %zu elements: equal keys changed their order at position %zu", n, cnt);
+            prevk = e->key; previd = e->id; e->id = ~e->id; pv = nd2; nd2 = nd2->n; cnt++;
+        }
+        if (gd.h.p != pv) VIOL(&dummy, 1, "back_links", "sorted list of %zu: sentinel back link is not the last element", n);
+    } else {
+        struct cstl_slist_node *nd2 = gs.h.n, *last = NULL;
+        while (nd2 != NULL && cnt <= n) {
+            struct gselem *e = (struct gselem *)((char *)nd2 - offsetof(struct gselem, sn));
+            if ((char *)e < pool || (char *)e >= pool + n * esz || e->id < 0) VIOL(&dummy, 0, "sort_perm", "sorted list of %zu holds a foreign or repeated element at %zu", n, cnt);
+            if (e->key < prevk) VIOL(&dummy, 0, "sort_order", "sorted list of %zu elements is not ordered at position %zu", n, cnt);
+            if (e->key == prevk && e->id < previd) VIOL(&dummy, 0, "sort_stable", "sorted list of %zu elements: equal keys changed their order at position %zu", n, cnt);
+            prevk = e->key; previd = e->id; e->id = ~e->id; last = nd2; nd2 = nd2->n; cnt++;
+        }
+        if (cstl_slist_back(&gs) != (last ? (void *)((char *)last - offsetof(struct gselem, sn)) : NULL)) VIOL(&dummy, 0, "tail", "after sorting %zu elements back() is not the true last element", n);
+    }
+    if (cnt != n) VIOL(&dummy, is_d, "sort_perm", "sorting %zu elements left %zu reachable", n, cnt);
+    huge_cleared = 0;
+    if (is_d) TRY(cstl_dlist_clear(&gd, huge_clear_cb)); else TRY(cstl_slist_clear(&gs, huge_clear_cb));
+    if ((size_t)huge_cleared != n) { g_cur_prop = "C15"; VIOL(&dummy, is_d, "clear_count", "clear of %zu elements called back %d times", n, huge_cleared); }
+    free(pool);
+    PROBE("giant_sort_2^23"); if (n >= ((size_t)1 << 24)) PROBE("giant_sort_2^24"); if (n >= ((size_t)1 << 25)) PROBE("giant_sort_2^25"); if (n >= ((size_t)1 << 26)) PROBE("giant_sort_2^26");
+    EVT("giant_sort", is_d, n, pat);
+    if (n > maxreach) maxreach = (unsigned)n;
+    g_run.nontrivial = 1;
+}
+
 /* ------------------------------------------------------------------- exec */
 
 static void check_noabort(struct mlist *m, int is_d)
@@ -576,6 +650,7 @@ static void l_exec(const plan_t *p)
     int i, k;
 
     simheap_reset(&hc, p->cfg[CF_JUNK]);
+    simheap_far((int)p->cfg[CF_FAR]);
     nd = (int)p->cfg[CF_ND]; ns = (int)p->cfg[CF_NS];
     if (nd < 1) nd = 1; if (nd > MAXL) nd = MAXL;
     if (ns < 1) ns = 1; if (ns > MAXL) ns = MAXL;
@@ -605,8 +680,17 @@ static void l_exec(const plan_t *p)
         case 3: g_hnd = (size_t)0 - (((size_t)1 << 31) + 24); PROBE("handles_2^31_before_the_node_members"); break;
         case 4: g_hnd = (size_t)0 - (((size_t)1 << 32) + 24); PROBE("handles_2^32_before_the_node_members"); break;
         }
+        if (p->cfg[CF_DECL] && g_hnd == 0) {
+            /* the documented other way to get an empty list: the initializer macros (they name the object they initialise) */
+            if (md[i].kind) dl[i] = (struct cstl_dlist)CSTL_DLIST_INITIALIZER(dl[i], struct lelem, dn2);
+            else dl[i] = (struct cstl_dlist)CSTL_DLIST_INITIALIZER(dl[i], struct lelem, dn);
+            if (ms[i].kind) sl[i] = (struct cstl_slist)CSTL_SLIST_INITIALIZER(sl[i], struct lelem, sn2);
+            else sl[i] = (struct cstl_slist)CSTL_SLIST_INITIALIZER(sl[i], struct lelem, sn);
+            PROBE("from_initializer_macro");
+        } else {
         cstl_dlist_init(&dl[i], doff(md[i].kind) - g_hnd);
         cstl_slist_init(&sl[i], soff(ms[i].kind) - g_hnd);
+        }
         md[i].n = 0; ms[i].n = 0; md[i].since_clear = -1; ms[i].since_clear = -1;
     }
 
@@ -631,6 +715,7 @@ static void l_exec(const plan_t *p)
             cstl_dlist_init(&dl[0], doff(md[0].kind) - g_hnd); cstl_slist_init(&sl[0], soff(ms[0].kind) - g_hnd);
             continue;
         }
+        if (o->kind == D_GIANT_SORT || o->kind == S_GIANT_SORT) { giant_sort(o->kind == D_GIANT_SORT, o->a[1], o->a[2]); continue; }
         if (o->kind == D_CHURN || o->kind == S_CHURN) {
             /* something that only matters on the n-th repetition: a transient element is added and removed 254 ... 65 536
              * times in a row; the list must be what it was (the audit below compares it with the unchanged model) */
@@ -748,7 +833,15 @@ static void l_exec(const plan_t *p)
             si = (int)(o->a[2] % (uint64_t)nd);
             if (si == li) si = (li + 1) % nd;
             sm = &md[si];
-            if (sm->kind != m->kind) { EVT("skip", 0, 0, 0); break; }     /* lists over different link members: outside concat's domain */
+            if (sm->kind != m->kind) {
+                /* lists over different link members: the pinned code compares the offsets and leaves both lists alone (the
+                 * elements of one cannot be appended through the member of the other), whether either is empty or not */
+                TRY(cstl_dlist_concat(D, &dl[si])); check_noabort(m, 1);
+                if (m->n == 0) PROBE("d_concat_other_member_empty_dst"); else PROBE("d_concat_other_member");
+                EVT("d_concat_other", li, si, m->n);
+                audit_d(si);
+                break;
+            }
             if (sm->since_clear >= 0 && sm->since_clear <= 3) { g_cur_prop = "C15"; g_cur_ctx = "after-clear"; }
             TRY(cstl_dlist_concat(D, &dl[si])); check_noabort(m, 1);
             if (sm->n == 0) PROBE("d_concat_empty_src"); if (m->n == 0) PROBE("d_concat_empty_dst");
@@ -845,6 +938,11 @@ static void l_exec(const plan_t *p)
             nclr = 0;
             g_cur_prop = "C15";
             m->since_clear = 0; g_cur_ctx = "after-clear";
+            if (o->a[2] & 1) {
+                int seen = d_clear_plain(D);
+                if (seen != npre) VIOL(m, 1, "callback_effects_invisible", "clear of %d elements: the caller's own counter, written by the callback and read right after the call in an optimised function, says %d", npre, seen);
+                PROBE("clear_in_plain_function");
+            } else
             TRY(cstl_dlist_clear(D, clear_cb));
             m->n = 0;
             check_clear(m, 1, npre);
@@ -940,7 +1038,13 @@ static void l_exec(const plan_t *p)
             si = (int)(o->a[2] % (uint64_t)ns);
             if (si == li) si = (li + 1) % ns;
             sm = &ms[si];
-            if (sm->kind != m->kind) { EVT("skip", 0, 0, 0); break; }
+            if (sm->kind != m->kind) {
+                TRY(cstl_slist_concat(S, &sl[si])); check_noabort(m, 0);
+                if (m->n == 0) PROBE("s_concat_other_member_empty_dst"); else PROBE("s_concat_other_member");
+                EVT("s_concat_other", li, si, m->n);
+                audit_s(si);
+                break;
+            }
             if (sm->since_clear >= 0 && sm->since_clear <= 3) { g_cur_prop = "C15"; g_cur_ctx = "after-clear"; }
             TRY(cstl_slist_concat(S, &sl[si])); check_noabort(m, 0);
             if (sm->n == 0) PROBE("s_concat_empty_src"); if (m->n == 0) PROBE("s_concat_empty_dst");
@@ -997,6 +1101,11 @@ static void l_exec(const plan_t *p)
             nclr = 0;
             g_cur_prop = "C15";
             m->since_clear = 0; g_cur_ctx = "after-clear";
+            if (o->a[2] & 1) {
+                int seen = s_clear_plain(S);
+                if (seen != npre) VIOL(m, 0, "callback_effects_invisible", "clear of %d elements: the caller's own counter, written by the callback and read right after the call in an optimised function, says %d", npre, seen);
+                PROBE("clear_in_plain_function");
+            } else
             TRY(cstl_slist_clear(S, clear_cb));
             m->n = 0;
             check_clear(m, 0, npre);
@@ -1035,10 +1144,19 @@ static void l_exec(const plan_t *p)
 
 static void l_gen(prng_t *r, int mode, plan_t *p)
 {
+    p->cfg[CF_FAR] = FAR_OF_INDEX();      /* element blocks 2^32 or 3 * 2^31 bytes apart in one run in seven each */
+    p->cfg[CF_DECL] = DECL_OF_INDEX();    /* one run in five starts from the initializer macros */
     int nops, i, longrun, small;
     int d_only = mode == 12, s_only = mode == 13;
     unsigned w_clear;
 
+    if (mode == 122 || mode == 123) {
+        /* giant lists (thorough tier): the run index walks sizes x key patterns */
+        op_t *o = plan_add(p, mode == 122 ? D_GIANT_SORT : S_GIANT_SORT);
+        p->cfg[CF_ND] = 1; p->cfg[CF_NS] = 1; p->cfg[CF_KEYS] = 1; p->cfg[CF_JUNK] = 1; p->cfg[CF_MAXLEN] = 8;
+        o->a[1] = g_gen_index; o->a[2] = prng_next(r);
+        return;
+    }
     if (mode == 112 || mode == 113) {
         /* very large lists: one huge build-sort-verify-clear per run */
         op_t *o = plan_add(p, mode == 112 ? D_HUGE_SORT : S_HUGE_SORT);
